@@ -1,2 +1,257 @@
-(* placeholder until the proofs land *)
-From Sccache Require Import Model.KeyEnc Gen.C02HashSpec.
+(* Properties/C02.v — pinned statements for property C02:
+   "C/C++ cache key covers every result-affecting component, without aliasing".
+
+   [the_spec] is regenerated from the sources on every run (Gen/C02HashSpec.v); [H] stands for util::hex . BLAKE3.
+   [encode_c H the_spec r] / [encode_pp H the_spec r] are the byte strings fed to BLAKE3 by hash_key /
+   preprocessor_cache_entry_hash_key (Model/KeyEnc.v; tied to the real functions by the differential legs). *)
+From Coq Require Import List NArith Bool.
+From Sccache Require Import Base.Sx Model.KeyEnc Proofs.KeyEnc Proofs.KeyEncSpec Gen.C02HashSpec Gen.C02HashSpec_ok.
+Import ListNotations.
+Local Open Scope N_scope.
+
+(* ------------------------------------------------------------------ the result key (hash_key) *)
+
+(* Equal pre-images => equal components.  Well-formedness is boolean: 64-hex digests, no NUL in arguments /
+   allow-listed values / preprocessor output, lengths < 2^56, known language, pp_ok; extra_pp_ok settles the one
+   boundary that carries no delimiter (same number of extra hashes, or no output starting with 64 hex digits). *)
+Theorem C02_encode_injective :
+  forall (H : bytes -> bytes) (r1 r2 : creq),
+    wf_c the_spec r1 = true -> wf_c the_spec r2 = true -> extra_pp_ok r1 r2 = true ->
+    encode_c H the_spec r1 = encode_c H the_spec r2 ->
+    canon_c the_spec r1 = canon_c the_spec r2.
+Proof. exact (fun H r1 r2 => encode_c_inj H the_spec r1 r2 the_spec_good). Qed.
+Print Assumptions C02_encode_injective.
+
+(* The same without extra_pp_ok: everything is determined except that trailing extra hashes may trade places with
+   the beginning of the preprocessor output. *)
+Theorem C02_encode_injective_gen :
+  forall (H : bytes -> bytes) (r1 r2 : creq),
+    wf_c the_spec r1 = true -> wf_c the_spec r2 = true ->
+    encode_c H the_spec r1 = encode_c H the_spec r2 ->
+    digest r1 = digest r2 /\ plusplus r1 = plusplus r2 /\
+    tag_of the_spec (lang r1) = tag_of the_spec (lang r2) /\
+    args r1 = args r2 /\ fenv (allow_main the_spec) r1 = fenv (allow_main the_spec) r2 /\
+    exists hs, Forall (fun h => is_hex64 h = true) hs /\
+               ((extra r1 = extra r2 ++ hs /\ pp r2 = concat hs ++ pp r1) \/
+                (extra r2 = extra r1 ++ hs /\ pp r1 = concat hs ++ pp r2)).
+Proof. exact (fun H r1 r2 => encode_c_inj_gen H the_spec r1 r2 the_spec_good). Qed.
+Print Assumptions C02_encode_injective_gen.
+
+(* Languages: equal tags => equal languages, up to the driver-bound alias Cuda/CudaFE (Model/KeyEnc.v). *)
+Theorem C02_lang_injective :
+  forall l1 l2 : bytes,
+    lang_known the_spec l1 = true -> lang_known the_spec l2 = true ->
+    tag_of the_spec l1 = tag_of the_spec l2 -> l1 = l2 \/ alias_exempt l1 l2 = true.
+Proof. exact (fun l1 l2 => lang_injective the_spec l1 l2 the_spec_tags_ok). Qed.
+Print Assumptions C02_lang_injective.
+
+Theorem C02_single_change :
+  forall (H : bytes -> bytes) (r1 r2 : creq),
+    wf_c the_spec r1 = true -> wf_c the_spec r2 = true -> one_differs_c the_spec r1 r2 ->
+    encode_c H the_spec r1 <> encode_c H the_spec r2.
+Proof. exact (fun H r1 r2 => single_change_c H the_spec r1 r2 the_spec_good). Qed.
+Print Assumptions C02_single_change.
+
+Theorem C02_boundary_shift :
+  forall (H : bytes -> bytes) (r : creq) (pre : list bytes) (a b s : bytes) (post : list bytes),
+    s <> [] ->
+    wf_c the_spec (set_args r (pre ++ [a ++ s; b] ++ post)) = true ->
+    wf_c the_spec (set_args r (pre ++ [a; s ++ b] ++ post)) = true ->
+    encode_c H the_spec (set_args r (pre ++ [a ++ s; b] ++ post))
+    <> encode_c H the_spec (set_args r (pre ++ [a; s ++ b] ++ post)).
+Proof. exact (fun H r pre a b s post => boundary_shift_c H the_spec r pre a b s post the_spec_good). Qed.
+Print Assumptions C02_boundary_shift.
+
+Theorem C02_split_merge :
+  forall (H : bytes -> bytes) (r : creq) (pre : list bytes) (a b : bytes) (post : list bytes),
+    wf_c the_spec (set_args r (pre ++ [a ++ b] ++ post)) = true ->
+    wf_c the_spec (set_args r (pre ++ [a; b] ++ post)) = true ->
+    encode_c H the_spec (set_args r (pre ++ [a ++ b] ++ post))
+    <> encode_c H the_spec (set_args r (pre ++ [a; b] ++ post)).
+Proof. exact (fun H r pre a b post => split_merge_c H the_spec r pre a b post the_spec_good). Qed.
+Print Assumptions C02_split_merge.
+
+Theorem C02_name_value_shift :
+  forall (H : bytes -> bytes) (r : creq) (pre post : list (bytes * bytes)) (k1 v1 k2 v2 : bytes),
+    k1 ++ v1 = k2 ++ v2 -> k1 <> k2 ->
+    allowed (allow_main the_spec) k1 = true \/ allowed (allow_main the_spec) k2 = true ->
+    wf_c the_spec (set_env r (pre ++ [(k1, v1)] ++ post)) = true ->
+    wf_c the_spec (set_env r (pre ++ [(k2, v2)] ++ post)) = true ->
+    encode_c H the_spec (set_env r (pre ++ [(k1, v1)] ++ post))
+    <> encode_c H the_spec (set_env r (pre ++ [(k2, v2)] ++ post)).
+Proof. exact (fun H r pre post k1 v1 k2 v2 => name_value_shift_c H the_spec r pre post k1 v1 k2 v2 the_spec_good). Qed.
+Print Assumptions C02_name_value_shift.
+
+Theorem C02_list_move :
+  forall (H : bytes -> bytes) (r : creq),
+    (forall h, wf_c the_spec (set_args r (args r ++ [h])) = true ->
+               wf_c the_spec (set_extra r (h :: extra r)) = true ->
+               encode_c H the_spec (set_args r (args r ++ [h])) <> encode_c H the_spec (set_extra r (h :: extra r))) /\
+    (forall pre post k v,
+        env r = pre ++ [(k, v)] ++ post ->
+        wf_c the_spec r = true ->
+        wf_c the_spec (set_args (set_env r (pre ++ post)) (args r ++ [k ++ [61] ++ v])) = true ->
+        encode_c H the_spec r
+        <> encode_c H the_spec (set_args (set_env r (pre ++ post)) (args r ++ [k ++ [61] ++ v]))).
+Proof. exact (fun H r => list_move_c H the_spec r the_spec_good). Qed.
+Print Assumptions C02_list_move.
+
+(* BLAKE3's collision-freeness is a hypothesis on exactly the two encodings compared. *)
+Theorem C02_key_iff :
+  forall (H : bytes -> bytes) (r1 r2 : creq),
+    wf_c the_spec r1 = true -> wf_c the_spec r2 = true -> extra_pp_ok r1 r2 = true ->
+    (H (encode_c H the_spec r1) = H (encode_c H the_spec r2) -> encode_c H the_spec r1 = encode_c H the_spec r2) ->
+    (key H the_spec r1 = key H the_spec r2 <-> canon_c the_spec r1 = canon_c the_spec r2).
+Proof. exact (fun H r1 r2 => key_iff H the_spec r1 r2 the_spec_good). Qed.
+Print Assumptions C02_key_iff.
+
+(* ------------------------------------------------------------------ the preprocessor-level key *)
+
+Theorem C02_pp_encode_injective :
+  forall (H : bytes -> bytes), (forall x, is_hex64 (H x) = true) ->
+  forall r1 r2 : creq,
+    wf_p the_spec r1 = true -> wf_p the_spec r2 = true ->
+    encode_pp H the_spec r1 = encode_pp H the_spec r2 ->
+    digest r1 = digest r2 /\ plusplus r1 = plusplus r2 /\
+    tag_of the_spec (lang r1) = tag_of the_spec (lang r2) /\
+    args r1 = args r2 /\ extra r1 = extra r2 /\ fenv (allow_pp the_spec) r1 = fenv (allow_pp the_spec) r2 /\
+    path r1 = path r2 /\ H (input r1) = H (input r2).
+Proof. exact (fun H Hh r1 r2 => encode_pp_inj H Hh the_spec r1 r2 the_spec_good). Qed.
+Print Assumptions C02_pp_encode_injective.
+
+Theorem C02_pp_single_change :
+  forall (H : bytes -> bytes), (forall x, is_hex64 (H x) = true) ->
+  forall r1 r2 : creq,
+    wf_p the_spec r1 = true -> wf_p the_spec r2 = true ->
+    (H (input r1) = H (input r2) -> input r1 = input r2) ->
+    one_differs_p the_spec r1 r2 ->
+    encode_pp H the_spec r1 <> encode_pp H the_spec r2.
+Proof. exact (fun H Hh r1 r2 => single_change_p H Hh the_spec r1 r2 the_spec_good). Qed.
+Print Assumptions C02_pp_single_change.
+
+Theorem C02_pp_boundary_shift :
+  forall (H : bytes -> bytes), (forall x, is_hex64 (H x) = true) ->
+  forall (r : creq) (pre : list bytes) (a b s : bytes) (post : list bytes),
+    s <> [] ->
+    wf_p the_spec (set_args r (pre ++ [a ++ s; b] ++ post)) = true ->
+    wf_p the_spec (set_args r (pre ++ [a; s ++ b] ++ post)) = true ->
+    encode_pp H the_spec (set_args r (pre ++ [a ++ s; b] ++ post))
+    <> encode_pp H the_spec (set_args r (pre ++ [a; s ++ b] ++ post)).
+Proof. exact (fun H Hh r pre a b s post => boundary_shift_p H Hh the_spec r pre a b s post the_spec_good). Qed.
+Print Assumptions C02_pp_boundary_shift.
+
+Theorem C02_pp_name_value_shift :
+  forall (H : bytes -> bytes), (forall x, is_hex64 (H x) = true) ->
+  forall (r : creq) (pre post : list (bytes * bytes)) (k1 v1 k2 v2 : bytes),
+    k1 ++ v1 = k2 ++ v2 -> k1 <> k2 ->
+    allowed (allow_pp the_spec) k1 = true \/ allowed (allow_pp the_spec) k2 = true ->
+    wf_p the_spec (set_env r (pre ++ [(k1, v1)] ++ post)) = true ->
+    wf_p the_spec (set_env r (pre ++ [(k2, v2)] ++ post)) = true ->
+    encode_pp H the_spec (set_env r (pre ++ [(k1, v1)] ++ post))
+    <> encode_pp H the_spec (set_env r (pre ++ [(k2, v2)] ++ post)).
+Proof.
+  exact (fun H Hh r pre post k1 v1 k2 v2 => name_value_shift_p H Hh the_spec r pre post k1 v1 k2 v2 the_spec_good).
+Qed.
+Print Assumptions C02_pp_name_value_shift.
+
+Theorem C02_pp_list_move :
+  forall (H : bytes -> bytes), (forall x, is_hex64 (H x) = true) ->
+  forall r : creq,
+    (forall h, wf_p the_spec (set_args r (args r ++ [h])) = true ->
+               wf_p the_spec (set_extra r (h :: extra r)) = true ->
+               encode_pp H the_spec (set_args r (args r ++ [h])) <> encode_pp H the_spec (set_extra r (h :: extra r))) /\
+    (forall c rest, input r = c :: rest ->
+               wf_p the_spec r = true -> wf_p the_spec (set_input (set_path r (path r ++ [c])) rest) = true ->
+               encode_pp H the_spec r <> encode_pp H the_spec (set_input (set_path r (path r ++ [c])) rest)).
+Proof. exact (fun H Hh r => list_move_p H Hh the_spec r the_spec_good). Qed.
+Print Assumptions C02_pp_list_move.
+
+Theorem C02_pp_key_iff :
+  forall (H : bytes -> bytes), (forall x, is_hex64 (H x) = true) ->
+  forall r1 r2 : creq,
+    wf_p the_spec r1 = true -> wf_p the_spec r2 = true ->
+    gated the_spec r1 = false -> gated the_spec r2 = false ->
+    (H (encode_pp H the_spec r1) = H (encode_pp H the_spec r2) -> encode_pp H the_spec r1 = encode_pp H the_spec r2) ->
+    (H (input r1) = H (input r2) -> input r1 = input r2) ->
+    (pp_key H the_spec r1 = pp_key H the_spec r2 <-> canon_p the_spec r1 = canon_p the_spec r2).
+Proof. exact (fun H Hh r1 r2 => pp_key_iff H Hh the_spec r1 r2 the_spec_good). Qed.
+Print Assumptions C02_pp_key_iff.
+
+(* S16: two requests with one preprocessor-level pre-image agree on every variable the result key looks at, so a
+   direct-mode hit cannot hand back a result key computed under a different (hashed) environment. *)
+Theorem C02_pp_env_covers_main :
+  forall (H : bytes -> bytes), (forall x, is_hex64 (H x) = true) ->
+  forall r1 r2 : creq,
+    wf_p the_spec r1 = true -> wf_p the_spec r2 = true ->
+    encode_pp H the_spec r1 = encode_pp H the_spec r2 ->
+    fenv (allow_main the_spec) r1 = fenv (allow_main the_spec) r2.
+Proof. exact (fun H Hh r1 r2 => pp_env_covers_main H Hh the_spec r1 r2 the_spec_good the_spec_env_covers). Qed.
+Print Assumptions C02_pp_env_covers_main.
+
+(* The variables counted as result-affecting at the pinned commit are (still) on the allow-lists; together with
+   C02_single_change / C02_pp_single_change: changing the value of any of them changes the pre-image. *)
+Theorem C02_required_vars_hashed :
+  (forall k, In k required_main -> allowed (allow_main the_spec) k = true) /\
+  (forall k, In k required_pp -> allowed (allow_pp the_spec) k = true).
+Proof. exact (required_allowed the_spec the_spec_required). Qed.
+Print Assumptions C02_required_vars_hashed.
+
+(* ------------------------------------------------------------------ recorded refutations *)
+
+(* S10b: without pp_ok's "no tag extension" the statement is false (language c, output "++int x;" vs c++, "int x;"). *)
+Theorem C02_lang_pp_boundary_refuted :
+  exists r1 r2,
+    common_ok the_spec r1 = true /\ common_ok the_spec r2 = true /\
+    env_ok (allow_main the_spec) r1 = true /\ env_ok (allow_main the_spec) r2 = true /\
+    nonul (pp r1) = true /\ nonul (pp r2) = true /\ extra_pp_ok r1 r2 = true /\
+    canon_c the_spec r1 <> canon_c the_spec r2 /\
+    forall H, encode_c H the_spec r1 = encode_c H the_spec r2.
+Proof. exact lang_pp_boundary_refuted. Qed.
+Print Assumptions C02_lang_pp_boundary_refuted.
+
+(* S10c: without extra_pp_ok the statement is false even for well-formed requests. *)
+Theorem C02_extra_pp_boundary_refuted :
+  exists r1 r2,
+    wf_c the_spec r1 = true /\ wf_c the_spec r2 = true /\
+    canon_c the_spec r1 <> canon_c the_spec r2 /\
+    forall H, encode_c H the_spec r1 = encode_c H the_spec r2.
+Proof. exact extra_pp_boundary_refuted. Qed.
+Print Assumptions C02_extra_pp_boundary_refuted.
+
+(* S10d: without path_ok's "no tag extension" the pp-level statement is false
+   (language c, input /c++/x.h  vs  GenericHeader "c/c++", input /x.h). *)
+Theorem C02_pp_lang_path_boundary_refuted :
+  exists r1 r2,
+    common_ok the_spec r1 = true /\ common_ok the_spec r2 = true /\
+    env_ok (allow_pp the_spec) r1 = true /\ env_ok (allow_pp the_spec) r2 = true /\
+    abs_path (path r1) = true /\ abs_path (path r2) = true /\ nonul (path r1) = true /\ nonul (path r2) = true /\
+    canon_p the_spec r1 <> canon_p the_spec r2 /\
+    forall H, encode_pp H the_spec r1 = encode_pp H the_spec r2.
+Proof. exact pp_lang_path_boundary_refuted. Qed.
+Print Assumptions C02_pp_lang_path_boundary_refuted.
+
+(* S10a, repaired: the tag table as it was (ObjectiveCxxHeader => "objc++") fails tags_ok and aliases two languages. *)
+Theorem C02_old_tags_refuted :
+  tags_ok old_tags_spec = false /\
+  exists r1 r2,
+    wf_c old_tags_spec r1 = true /\ wf_c old_tags_spec r2 = true /\
+    lang r1 <> lang r2 /\ alias_exempt (lang r1) (lang r2) = false /\
+    forall H, encode_c H old_tags_spec r1 = encode_c H old_tags_spec r2.
+Proof. exact old_tags_refuted. Qed.
+Print Assumptions C02_old_tags_refuted.
+
+(* S16, repaired: the preprocessor-level allow-list as it was fails env_covers and hides CCC_OVERRIDE_OPTIONS. *)
+Theorem C02_old_env_cover_refuted :
+  env_covers old_allow_pp_spec = false /\
+  exists r1 r2,
+    wf_p old_allow_pp_spec r1 = true /\ wf_p old_allow_pp_spec r2 = true /\
+    fenv (allow_main old_allow_pp_spec) r1 <> fenv (allow_main old_allow_pp_spec) r2 /\
+    forall H, encode_pp H old_allow_pp_spec r1 = encode_pp H old_allow_pp_spec r2.
+Proof. exact old_env_cover_refuted. Qed.
+Print Assumptions C02_old_env_cover_refuted.
+
+(* ------------------------------------------------------------------ non-vacuity *)
+Example C02_ex_wf : wf_c the_spec ex_req = true /\ wf_p the_spec ex_req = true /\ extra_pp_ok ex_req ex_req = true.
+Proof. vm_compute; repeat split; reflexivity. Qed.
+Example C02_ex_spec : spec_good the_spec /\ env_covers the_spec = true.
+Proof. exact (conj the_spec_good the_spec_env_covers). Qed.
